@@ -342,6 +342,25 @@ def cyclic_imports(rng):
     return files
 
 
+def cyclic_plugin(rng):
+    """an installed pytest11 plugin whose modules import each other in a circle (or name themselves in
+    pytest_plugins): the scan passes plugin status along those edges - and still has to stop"""
+    sp = "venv/lib/python3.12/site-packages"
+    k = rng.choice([1, 2, 3])
+    mods = ["plug%d" % i for i in range(k)]
+    files = {sp + "/cycplug/__init__.py": ""}
+    for i, m in enumerate(mods):
+        nxt = mods[(i + 1) % k]
+        L = [FIX % ("f%d" % i)]
+        L.append(rng.choice(["from .%s import *\n" % nxt, 'pytest_plugins = ["cycplug.%s"]\n' % nxt, "from cycplug.%s import *\n" % nxt]))
+        if rng.random() < 0.4:
+            L.append('pytest_plugins = ["cycplug.%s"]\n' % m)       # names itself
+        files[sp + "/cycplug/%s.py" % m] = "".join(L)
+    files[sp + "/cycplug-1.0.dist-info/entry_points.txt"] = "[pytest11]\ncycplug = cycplug.plug0\n"
+    files["test_x.py"] = "def test_x(%s):\n    pass\n" % ", ".join("f%d" % i for i in range(k))
+    return files
+
+
 def cyclic_deps(rng):
     names = ["f%d" % i for i in range(rng.choice([1, 2, 3, 5]))]
     L = ["import pytest", ""]
@@ -420,15 +439,22 @@ def run(tier, seed):
         files = cyclic_imports(r.rng) if kind == "imports" else cyclic_deps(r.rng) if kind == "deps" else deep_chain(r.rng)
         if kind == "deep" and i % 9 != 8 and i > 6:
             kind, files = "imports", cyclic_imports(r.rng)
+        if i % 9 == 4:
+            kind, files = "plugin-cycle", cyclic_plugin(r.rng)
         name = "c%d" % i
         cases.case(name, {"kind": kind})
         for k, (p, t) in enumerate(sorted(files.items())):
-            cases.text("f%d" % k, t); cases.raw("disk %s f%d" % (p, k))
-        if i % 2 == 0:
+            if p.endswith(".py"):
+                cases.text("f%d" % k, t)
+            else:
+                cases.text("f%d" % k, t, with_ast=False)
+            cases.raw("disk %s f%d" % (p, k))
+        if i % 2 == 0 or kind == "plugin-cycle":
             cases.op("scan")
         else:
             for k, (p, t) in enumerate(sorted(files.items())):
                 cases.op("analyze", p, "f%d" % k)
+        files = {p: t for p, t in files.items() if p.endswith(".py")}
         for p in sorted(files):
             cases.q("avail", p); cases.q("imported", p); cases.q("cyclesin", p); cases.q("mismatch", p)
             t = files[p]
